@@ -81,6 +81,17 @@ func TestC08WholePackets(t *testing.T) {
 			},
 			"unsub": func(rt *rapid.T) { h.unsub(rapid.IntRange(1, 3).Draw(rt, "n")) },
 			"ping":  func(rt *rapid.T) { h.ping() },
+			// a PINGRESP nobody asked for (or one which overtakes a PINGREQ
+			// that is still being written)
+			"wanderingPingresp": func(rt *rapid.T) {
+				c := h.Current()
+				if c == nil || !c.Accepted() {
+					rt.Skip("no accepted connection")
+				}
+				h.Act("broker sends PINGRESP")
+				c.Send([]byte{0xd0, 0})
+				h.settleInbound()
+			},
 			"armWrite": func(rt *rapid.T) {
 				if h.Current() == nil {
 					rt.Skip("no connection")
@@ -94,7 +105,12 @@ func TestC08WholePackets(t *testing.T) {
 				if c == nil || c.WritersParked() > 0 {
 					rt.Skip("no connection or already parked")
 				}
-				h.armWrite(cut(), sim.WPark)
+				d := cut()
+				h.armWrite(d, sim.WPark)
+				// … and once released, the Write may fail right there
+				if rapid.IntRange(0, 2).Draw(rt, "thenFails") == 0 {
+					h.armWrite(d, rapid.SampledFrom([]int{sim.WReset, sim.WTimeout}).Draw(rt, "failKind"))
+				}
 			},
 			"releaseWrite": func(rt *rapid.T) {
 				c := h.Current()
@@ -228,6 +244,28 @@ func TestC08WholePackets(t *testing.T) {
 			overlap = true
 			return
 		}
+		pingCheck := func() {
+			// success only if the packet was written completely: no more
+			// successful Pings than complete PINGREQ packets on the wires
+			ok, wire := 0, 0
+			for _, c := range h.Calls {
+				if r, isReq := c.Meta.(*Req); isReq && r.Kind == "ping" && h.IsDone(c) && c.Err == nil {
+					ok++
+				}
+			}
+			for _, cn := range h.AllConns() {
+				ps, _, _ := refmqtt.DecodeAll(cn.OutCopy())
+				for _, p := range ps {
+					if p.Type == refmqtt.PINGREQ {
+						wire++
+					}
+				}
+			}
+			if ok > wire {
+				h.Failf("%d Ping calls reported success, yet only %d complete PINGREQ packets were written", ok, wire)
+			}
+		}
+		defer pingCheck()
 		h.drain(h.allPersistedDone)
 		final = true
 		h.PollExchanges()
